@@ -428,6 +428,18 @@ def work_names(_unit):
                         names.append(bytes(v).decode("latin-1") if isinstance(v, bytes) else str(v))
                 if nm not in names and os.path.normpath(nm) not in names:
                     mw.fail("C07.list-name-decoding", {"cmd": c, "name": nm}, rp, nm, names)
+            # the other ways a name is sent: LIST-EXTENDED selection / return options, and the STATUS lines of LIST ... RETURN (STATUS ..)
+            for c in ('LIST (SUBSCRIBED) "" "*" RETURN (CHILDREN)', 'LIST "" ("%" "*") RETURN (SUBSCRIBED)', 'LIST "" "*" RETURN (STATUS (MESSAGES UIDNEXT))'):
+                r, resps = mw.cmd(c, rp)
+                n += 1
+                for typ in ("LIST", "STATUS") if "STATUS" in c else ("LIST",):
+                    names = []
+                    for x in resps:
+                        if x.kind == "untagged" and x.typ == typ and not x.errors and len(x.data) >= (3 if typ == "LIST" else 1):
+                            v = x.data[2 if typ == "LIST" else 0]
+                            names.append(bytes(v).decode("latin-1") if isinstance(v, bytes) else str(v))
+                    if r is not None and r.typ == "OK" and nm not in names and os.path.normpath(nm) not in names:
+                        mw.fail("C07.list-name-decoding", {"cmd": c.split('"')[0].strip() + " .. " + c.rsplit("RETURN", 1)[1].strip() + ":" + typ, "name": nm}, rp, nm, names)
             r, resps = mw.cmd(b"STATUS " + imap_literal(b) + b" (MESSAGES)", rp)
             for x in resps:
                 if x.kind == "untagged" and x.typ == "STATUS" and not x.errors:
